@@ -246,7 +246,7 @@ func (compactDates) Choose(n int, what string) int {
 // c05Wide: a class of more fields than any preallocation limit of the decoder (a wide bean).
 var c05Wide = func() reflect.Type {
 	var fs []reflect.StructField
-	for i := 0; i < 150; i++ {
+	for i := 0; i < 300; i++ {
 		t := reflect.TypeOf(int32(0))
 		if i%3 == 1 {
 			t = reflect.TypeOf("")
@@ -449,8 +449,8 @@ func TestC05(t *testing.T) {
 		}
 	}
 	r.Label("repeated definitions; 511..1500 definitions in a row")
-	// (5) a class of up to 150 fields, its definition at the start or after other classes
-	for _, nf := range []int{1, 63, 64, 65, 66, 100, 127, 128, 129, 150} {
+	// (5) a class of up to 300 fields (the field count crosses every one-octet boundary), its definition at the start or after other classes
+	for _, nf := range []int{1, 63, 64, 65, 66, 100, 127, 128, 129, 150, 255, 256, 257, 300} {
 		for _, reversed := range []bool{false, true} {
 			for _, k := range []int{0, 3} {
 				if !mine() {
@@ -471,7 +471,7 @@ func TestC05(t *testing.T) {
 			}
 		}
 	}
-	r.Label("class definitions of 1..150 fields")
+	r.Label("class definitions of 1..300 fields")
 	// ---------------- random: a newer version of a class, sent by the Go encoder itself, read as the older one
 	skewTM := map[string]reflect.Type{"skew.T": reflect.TypeOf(zoo.SkewOld{}), "Inner": reflect.TypeOf(zoo.Inner{})}
 	skewNames := map[string]string{"SkewNew": "skew.T"}
